@@ -30,8 +30,9 @@ def run(ck):
                  what="every target of resolution 2 from 96 origins (12 pentagons first) against BFS")
     t3 = os.path.join(ck.tdir, "c09.ndjson")
     drv_run(ck, drv, ["c09", ck.tier, ck.seed], t3)
-    ck.trace("strata", "Trace_Grid", "Trace.cfg", t3, nchunks=48,
-             what="pentagon disks / seam / random origins at r=0..15 against their k<=4(6) disks in both directions, "
+    ck.trace("strata", "Trace_Grid", "Trace.cfg", t3, nchunks=48, balance=True,
+             what="origins inside every pentagon base cell (each leading digit) against far targets up to 8/16/24/40 steps "
+                  "at r=1..5(8) (one BFS per origin); pentagon disks / seam / random origins at r=0..15 against their k<=4(6) disks in both directions, "
                   "cellToLocalIj<->localIjToCell round trips, IJ boxes, coordinates up to +-2^31, unit-step chart clause, "
                   "E_RES_MISMATCH pairs")
     ck.ev.assumptions += ["TLC 1.8 / JVM", "H3Grid.tla transcription + frozen tables", "ndjson encodings",
